@@ -53,4 +53,14 @@ theorem C10_next_stops_only_at_eof (t : TR) (hf : (next t).1 = false) (he : (nex
 example : ∃ f, readFile [] false = .ok f := ⟨_, rfl⟩
 example : ∃ f, readFile [32, 9, 13] false = .ok f := ⟨_, rfl⟩
 
+/-- The tie of the tokenizer model to tokenize.go's token tree: every `tt.add` of the regenerated table is
+    either a one-byte simple terminal (which the model reads from the table itself) or one of the multi-byte /
+    builder entries the model hard-codes, in the same order; the skipped bytes are space, tab and CR; every
+    keyword of the regenerated table has a token kind in the model. -/
+theorem C10_token_tree_as_modelled :
+    Facts.tokenTreeAdds.filter (fun e => (simpleKindOfName e.2).isNone || e.1.length != 1) = multiByteShape ∧
+    Facts.tokenTreeSkips = [32, 9, 13] ∧
+    Facts.keywordTable.all (fun e => (keywordKind (strOf e.1)).isSome) = true := by
+  refine ⟨by decide, by decide, by decide⟩
+
 end Bebop.Text
